@@ -608,8 +608,15 @@ func (w *world) awaitCreated(k int, label string, client bool, done chan struct{
 	it := grpItem{label: fmt.Sprintf("%s %d", label, id)}
 	// a replaced connection is closed on its own goroutine: wait for that call if a fake was registered before
 	if w.hadFakeBefore(k) && sc != nil {
+		// keepThisConnection closes the displaced connection on its own goroutine, and so does
+		// registerCheckedConnection (a second call, where the hub has that re-check): wait for
+		// the first call without limit worth mentioning, for the second one generously
 		dl := time.Now().Add(20 * time.Second)
-		for !w.l.Has("OClose") && time.Now().Before(dl) {
+		for w.l.Count("OClose") < 1 && time.Now().Before(dl) {
+			time.Sleep(200 * time.Microsecond)
+		}
+		dl = time.Now().Add(10 * time.Second)
+		for w.l.Count("OClose") < 2 && time.Now().Before(dl) {
 			time.Sleep(200 * time.Microsecond)
 		}
 	}
